@@ -16,7 +16,7 @@ RULE = (
     "one case per (program, re-layout) pair: generated programs (all statement kinds) and the repository's sample sources, re-rendered with "
     "random compositions of the listed presentation changes only (blank lines, indentation by spaces/tabs, trailing spaces, full-line and "
     "end-of-line ';' comments, '/* */' comments on their own lines, spaces around operators/commas/inside brackets, letter case of mnemonic, "
-    "size suffix, index registers (outer and inner) and hex digits, moving a run of statements into an .include file) and every single "
+    "size suffix, index registers (outer and inner) and hex digits, moving a run of statements into an .include file, one shared file for a run that stands twice, two files that both include a third) and every single "
     "transformation alone; judged by equality of accept/reject status, write_block sequence, labels and root symbols with the canonical "
     "rendering; distinct by hash of the re-laid-out text; non-trivial = the canonical program is accepted and the text differs"
 )
@@ -49,6 +49,40 @@ def extract_include(prog: list, rng: random.Random) -> list | None:
         return None
     lst[i:j] = [{"k": "include", "f": f"inc{rng.randrange(1000)}.s", "b": run}]
     return prog
+
+
+NOT_REPEATABLE = {"label", "assign", "sym", "macro", "scope", "map", "org", "reloc", "incbin", "table", "include", "include_ips"}
+
+
+def shared_include(prog: list, rng: random.Random, diamond: bool) -> tuple[list, list] | None:
+    """A run of statements that stands twice in the program (canonical: written out twice) is moved into ONE file that both places
+    include; with `diamond` the two places include two different files which both include the shared one."""
+    prog = copy.deepcopy(prog)
+    lists = [prog] + [sub for st, _, _ in walk(prog) for sub in _children_outside_macros(st)]
+    rng.shuffle(lists)
+    for lst in lists:
+        if not lst:
+            continue
+        for _ in range(4):
+            i = rng.randrange(0, len(lst))
+            j = rng.randint(i + 1, min(len(lst), i + 4))
+            run = lst[i:j]
+            if any(st["k"] in NOT_REPEATABLE for st, _, _ in walk(run)):
+                continue
+            k = rng.randint(j, len(lst))
+            tag = rng.randrange(1000)
+            inc = lambda: {"k": "include", "f": f"shared{tag}.s", "b": copy.deepcopy(run)}  # noqa: E731
+            first, second = inc(), inc()
+            if diamond:
+                first = {"k": "include", "f": f"first{tag}.s", "b": [first]}
+                second = {"k": "include", "f": f"second{tag}.s", "b": [second]}
+            canonical_lst = lst[:k] + copy.deepcopy(run) + lst[k:]
+            twin_lst = lst[:i] + [first] + lst[j:k] + [second] + lst[k:]
+            lst[:] = canonical_lst
+            canonical = copy.deepcopy(prog)
+            lst[:] = twin_lst
+            return canonical, prog
+    return None
 
 
 def _children_outside_macros(st: dict) -> list[list]:
@@ -91,7 +125,32 @@ def compare(res: Res, p: dict, r0, src0: str, knobs: list[str], rng: random.Rand
                     "relayout_files": {k: v for k, v in files1.items() if isinstance(v, str)}, "knobs": names})
 
 
+def check_shared(res: Res, p: dict, rng: random.Random, diamond: bool) -> None:
+    pair = shared_include(p["prog"], rng, diamond)
+    if pair is None:
+        res.count("shared_include_no_repeatable_run")
+        return
+    canonical, twin = pair
+    pc = dict(p, prog=canonical)
+    r0, src0, _ = run_ir(pc)
+    src1, files1 = materialise(dict(p, prog=twin))
+    r1 = assemble(src1, files=files1 or None, rom=p.get("rom"))
+    name = "include-diamond" if diamond else "include-shared"
+    res.case(src1, r0.ok)
+    res.count(f"knob[{name}]")
+    res.count(f"{name}_accepted" if r0.ok else f"{name}_rejected")
+    if sig(r1) != sig(r0):
+        bad = r1 if not r1.ok else r0
+        d = f"accepted={r0.ok} written out twice vs accepted={r1.ok} with one shared file ({bad.err_kind}: {bad.err_text[:160]})" if r0.ok != r1.ok else \
+            "emitted blocks differ" if r0.blocks != r1.blocks else "symbol values differ"
+        res.violate("layout:include", f"a run that stands twice, moved into one file included at both places ({name}), changes the result: {d}",
+                    {"p": {k: v for k, v in pc.items() if k != "files"}, "src": src0, "relayout_src": src1, "relayout_files": {k: v for k, v in files1.items() if isinstance(v, str)},
+                     "files": {k: bytes(v).hex() for k, v in (p.get("files") or {}).items() if not isinstance(v, str)}, "knobs": [name]})
+
+
 def check_program(res: Res, p: dict, rng: random.Random, relayouts: int) -> None:
+    check_shared(res, p, rng, False)
+    check_shared(res, p, rng, True)
     r0, src0, _ = run_ir(p)
     res.count("programs_accepted" if r0.ok else "programs_rejected")
     for k in KNOBS:
